@@ -524,7 +524,63 @@ def r5(prog, ctx):
     ctx.floor("R5", "resume skip paths in DatasetProcessor methods", n, 1)
 
 
+def r6(prog, ctx, markers):
+    """Persist after the last mutation: state dumped for --resume must not be modified between the dump and the marker."""
+    n = 0
+    for m, q, f, mst, path in markers:
+        dumps = [c for c in walk_no_nested(f) if isinstance(c, ast.Call) and isinstance(c.func, ast.Attribute) and c.func.attr == "dump"
+                 and c.lineno < mst.lineno and c.args]
+        for d in dumps:
+            obj = src(d.func.value)
+            n += 1
+            later = [c for c in walk_no_nested(f) if isinstance(c, ast.Call) and isinstance(c.func, ast.Attribute)
+                     and c.func.attr in ("add", "merge", "update", "inc", "add_read_info", "append") and src(c.func.value) == obj
+                     and d.lineno < c.lineno < mst.lineno]
+            if later:
+                ctx.fail("R6", later[0], q, "%s ... %s" % (src(d)[:60], src(later[0])[:60]),
+                         "%s is saved for --resume and then modified again before the marker: the saved copy that a resumed run "
+                         "reloads misses the later updates" % obj)
+            else:
+                ctx.ok("R6", "%s:%d" % (m.rel, d.lineno), "%s: %s dumped after its last modification" % (q, obj))
+    ctx.floor("R6", "state dumps before markers", n, 3)
+
+
+def r7(prog, ctx):
+    """A file that is opened in append mode by a stage must have been truncated by the object's constructor:
+    a resumed stage recomputes from scratch and would otherwise append to left-overs."""
+    n = 0
+    for m, q, c in prog.all_classes():
+        meths = prog.methods_of(c, inherited=False)
+        for name, f in meths.items():
+            for call in walk_no_nested(f):
+                if isinstance(call, ast.Call) and call_name(call) in ("open", "gzip.open") and len(call.args) > 1 \
+                        and isinstance(call.args[1], ast.Constant) and "a" in str(call.args[1].value) and dotted(call.args[0]) \
+                        and dotted(call.args[0]).startswith("self."):
+                    n += 1
+                    attr = dotted(call.args[0])
+                    # truncation in a constructor of this class or a base
+                    trunc = False
+                    inits = [prog.methods_of(c, inherited=True).get("__init__")]
+                    for b in c.bases:
+                        for _m, bc in prog.find_class((dotted(b) or "?").split(".")[-1]):
+                            inits.append(prog.methods_of(bc, inherited=True).get("__init__"))
+                    for init in [i for i in inits if i is not None]:
+                        for x in walk_no_nested(init):
+                            if isinstance(x, ast.Call) and call_name(x) == "open" and len(x.args) > 1 and src(x.args[0]) == attr \
+                                    and isinstance(x.args[1], ast.Constant) and "w" in str(x.args[1].value):
+                                trunc = True
+                    if not trunc:
+                        ctx.fail("R7", call, "%s.%s" % (c.name, name), src(call),
+                                 "%s is opened in append mode but no constructor of %s truncates it: when --resume recomputes a "
+                                 "chromosome (or re-merges), rows are appended to the left-over file and appear twice" % (attr, c.name))
+                    else:
+                        ctx.ok("R7", "%s:%d" % (m.rel, call.lineno), "%s.%s appends to %s, truncated in the constructor" % (c.name, name, attr))
+    ctx.floor("R7", "append-mode opens of object-owned files", n, 2)
+
+
 def run(prog, ctx):
+    ctx.rule("R6", "in a marker-creating function no add/merge/update of an object follows its dump() before the marker")
+    ctx.rule("R7", "every open(self.<file>, 'a') of a class is matched by an open(self.<file>, 'w') in its constructor chain")
     ctx.rule("R5", "for every DatasetProcessor method with a --resume skip return: each self.* location it fills after that point and "
                    "that later stages of process_sample read must be assigned on the skip path or unconditionally right after the call")
     ctx.rule("R1", "file-owning classes are derived from open(..., write) stored in constructors (transitively through owned "
@@ -555,6 +611,8 @@ def run(prog, ctx):
     r3(prog, ctx, stage_markers, kinds)
     r4(prog, ctx, stage_markers)
     r5(prog, ctx)
+    r6(prog, ctx, stage_markers)
+    r7(prog, ctx)
     ctx.assume("byte-equality of recomputed outputs, the .params pickle and external tools are not decided")
     ctx.assume("CPython reference counting is NOT assumed: __del__ and implicit closing of unreferenced files count as 'late'")
     ctx.assume("the read-mapping stage (minimap2) is outside the analysed closure's resume protocol")
